@@ -346,12 +346,23 @@ def check(plan, r):
                     pass
                 continue
             ret = ro[0][1]
-            got = {}; unid = 0
+            got = {}; unid = 0; multi = {}
             for e, oj in zip(ret.get("ids", []), ret.get("objs", [])):
-                if e.get("ref") and e["ref"] != "O9999": got[e["ref"]] = oj["attrs"]
+                if e.get("ref") and e["ref"] != "O9999": multi.setdefault(e["ref"], []).append(oj["attrs"])
                 elif not e.get("ref"): unid += 1
             user_in = any(op.get("who") == "user-stay" and rr.get("rv") == 0 for op, rr in ops)
             old = base_old.get(tok, {}); new = base_new.get(tok, old)
+            half_copies = 0
+            for ref_, lst in multi.items():
+                got[ref_] = lst[-1]
+                if len(lst) > 1 and vf == "C_CopyObject" and vop.get("o") == ref_ and is_v:
+                    # C_CopyObject first stores the SOURCE's attributes (label included) in the new file and applies the template afterwards: an interrupted
+                    # copy can carry the source's label. The entry that equals the source's old state IS the source; the others are the half-made copy.
+                    same_ = [a_ for a_ in lst if old.get(ref_) is not None and not diff_attrs(old[ref_], a_)]
+                    if same_: got[ref_] = same_[0]; half_copies += len(lst) - 1
+            if half_copies:
+                viols.append(_v("C16.R4", "%s: a search returns %d half-made cop%s of %s still carrying the source's label (subject file: %s): a half-written object is returned as a valid object" % (desc, half_copies, "y" if half_copies == 1 else "ies", vop.get("o"), fstate),
+                                target="written_object", manifestation="invalid_returned" if fstate in LOADER_REJECTS else "incomplete_object", file_state=fstate, **common))
             if unid and is_v:
                 viols.append(_v("C16.R4", "%s: a search returns %d object(s) without readable label (subject file: %s): a half-written object is returned as a valid object" % (desc, unid, fstate), target="written_object",
                                 manifestation="invalid_returned" if fstate in LOADER_REJECTS else "incomplete_object", file_state=fstate, **common))
